@@ -985,10 +985,3 @@ def slices(spec):
         out.append(("qdecl", spec["type"],
                     _shape_of(spec["val"], spec["arr"]), spec))
     return out
-
-
-def unit_features(spec):
-    sl = slices(spec)
-    if len(sl) == 1:
-        return sl[0][:3]
-    return None
